@@ -218,6 +218,32 @@ example : ("MHD_SHA512_256_update", "(ctx->count & (SHA512_256_BLOCK_SIZE - 1))"
 example : (⟨"MHD_SHA512_256_update", "length", 34, true, true, false, 64, 32, .other "length" 64⟩ : NarrowCast).harmless = false
     ∧ (CExpr.other "length" 64).eval (fun _ => 2 ^ 32 + 5) % 2 ^ 32 = 5 := by decide
 
+/-! ### No state outside the arguments
+
+  The models' `transform`, `update`, `finish` are functions of their arguments: the digest depends
+  on the context and the data only.  That abstracts the C functions correctly only if these keep
+  nothing in objects that outlive a call — a `static uint64_t W[16]` schedule buffer in a transform
+  gives the right digest in every single-threaded run and wrong ones when two connections' threads
+  check Digest Auth at the same time.  `Mhd.Gen.Hash.mutableStatics` (regenerated each run from
+  the symbol tables of the five translation units compiled with the configured flags) lists every
+  object with static storage duration that lives in a writable section: static locals, file-scope
+  objects, thread-local ones.  Constant tables (`.rodata`, `constStatics`) are not state. -/
+
+/-- the five hash translation units define no writable object with static storage duration, and
+    the scan did look at all five (it saw their init/update/finish functions): the purity of the
+    model functions is a checked abstraction (the run adds 4–8 threads hashing concurrently) -/
+theorem hash_functions_have_no_mutable_static_state :
+    Mhd.Gen.Hash.mutableStatics = [] ∧
+    Mhd.Gen.Hash.staticsScanned.map (·.1) =
+      ["src/microhttpd/md5.c", "src/microhttpd/sha1.c", "src/microhttpd/sha256.c",
+       "src/microhttpd/sha512_256.c", "src/microhttpd_ws/sha1.c"] ∧
+    (∀ u ∈ Mhd.Gen.Hash.staticsScanned, 3 ≤ u.2) := by decide
+
+/-- non-vacuity: the statement is about a list that a `static` buffer would make non-empty
+    (the translator checks on a probe file each run that it sees such objects and tells them from
+    const tables) -/
+example : [("src/microhttpd/sha512_256.c", "W", 89)] ≠ ([] : List (String × String × Nat)) := by decide
+
 /-! ### The length field written by finish
 
   `…_chunks` compare the digest with the specification, and the specifications pad with the
